@@ -825,7 +825,17 @@ func c19RandBytes0(rng *rand.Rand) []byte {
 	}
 }
 
+// c19HotKey: the key that many attributes of the tree being generated share (a string literal of
+// the source, e.g. an attribute key the package gives a meaning to), nil when there is none.
+var c19HotKey []byte
+
 func c19RandKey(rng *rand.Rand) []byte {
+	if c19HotKey != nil && rng.IntN(4) == 0 {
+		return c19HotKey
+	}
+	if t, ok := dictTok(rng); ok && rng.IntN(8) == 0 {
+		return []byte(t)
+	}
 	if rng.IntN(3) == 0 {
 		return c19RandBytes(rng)
 	}
@@ -917,6 +927,10 @@ func c19GenTree(rng *rand.Rand) string {
 	// about half of the trees hang off a *slog.LevelVar; cur is the level the tree is configured
 	// with at this point of the script, prev the one before the last Set
 	c := &c19Case{lvl: pick(rng, levels...), dyn: rng.IntN(2) == 0}
+	c19HotKey = nil
+	if t, ok := dictTok(rng); ok && rng.IntN(3) == 0 {
+		c19HotKey = []byte(t)
+	}
 	cur, prev := c.lvl, c.lvl
 	// records
 	nrec := 1 + rng.IntN(3)
